@@ -220,6 +220,7 @@ HandlerEffs(o) ==
   \* ends its own observer is only enumerated as that observer's sole subscription
   \cup (IF "h_drop" \in Effs /\ st.osubs[o] = <<>> /\ st.onext[o] = 1
         THEN {<<[e |-> "obs_drop", o |-> o]>>} ELSE {})
+  \cup (IF "h_panic" \in Effs THEN {<<[e |-> "panic", at |-> 0]>>} ELSE {})
   \cup (IF "h_set" \in Effs
         THEN {<<[e |-> "set", v |-> v, op |-> "set", x |-> I(1)]>> :
                 v \in {n \in Nodes : st.def[n].k = "var" /\ Tag(st.def[n].init) = "i"}}
